@@ -1,11 +1,19 @@
-"""Credit-path analysis of receive_reward (rules R04-ONCE / R04-PAIR, reused by C07, C08, C09, C10).
+"""Path-wise event analysis of a method (rules R04-ONCE / R04-PAIR, routing, hand-out paths; reused by C07-C13).
 
-A syntax-directed walk of receive_reward (own-method calls inlined with parameter substitution) enumerates
-its paths and lists the *credit events* on each:
-   ('node', receiver_src, arg_src)     <receiver>.update_reward(<arg>)
-   ('learner', receiver_src, args)     <base learner>.receive_reward(time, reward)
-   ('mean', target_src, value_ast)     running-mean store into a score container (self.V_reward[..], ...)
-   ('each', iter_src, [events])        a for-loop whose body performs the same events for every element
+A syntax-directed walk (own-method calls inlined with parameter substitution) enumerates the paths of a
+method.  Every path carries its own alias environment - local names standing for attribute / subscript /
+getter chains are expanded, and an alias is dropped as soon as something it mentions is written - so that
+receivers and values are expressed in terms of the instance state, whatever temporaries the code uses.
+Events on a path:
+   ('node', receiver_src, arg_src, ast)     <receiver>.update_reward(<arg>)
+   ('learner', receiver_src, args, ast)     <base learner>.receive_reward(time, reward)
+   ('lpull', receiver_src, args, ast)       <base learner>.pull(..) / .get_last_point()
+   ('mean', target_src, value_ast, ast)     store into a score container (self.V_reward[..], ...)
+   ('each', iter_src, [events], ast)        a for-loop whose body performs the same events for every element
+   ('call', 'recv.method', args, ast)       any other method call on a non-self receiver (open(), visit(), append, ...)
+   ('ret', value_src, value_ast, ast)       return <value>
+   ('raise', ...)
+`writes` / `seq` record attribute stores (with the stored value's source) in execution order.
 """
 import ast
 
@@ -14,7 +22,8 @@ from .report import AnalysisError, norm_src
 
 LEARNER_ATTRS = {"curr_algo", "V_algo", "algorithm"}
 SCORE_ATTRS = {"V_reward", "average_rewards"}
-MAX_PATHS = 4000
+MAX_PATHS = 6000
+CREDIT_KINDS = ("node", "learner", "mean", "each", "each-varying", "lpull")
 
 
 def is_learner_expr(e):
@@ -28,8 +37,9 @@ class Path:
         self.conds = []
         self.events = []
         self.done = False
-        self.writes = []     # (target_src, stmt_src) of other attribute stores
-        self.seq = []        # events and writes in execution order: ('ev', event) | ('w', target_src)
+        self.writes = []     # (target_src, stmt_src, value_src)
+        self.seq = []        # ('ev', event) | ('w', target_src, value_src)
+        self.env = {}        # local name -> source it stands for
 
     def clone(self):
         p = Path()
@@ -38,18 +48,22 @@ class Path:
         p.done = self.done
         p.writes = list(self.writes)
         p.seq = list(self.seq)
+        p.env = dict(self.env)
         return p
 
 
 def subst(e, env):
-    """Substitute parameter names by argument sources (AST level)."""
+    """Substitute aliased names by the sources they stand for (AST level)."""
     if not env:
         return e
 
     class S(ast.NodeTransformer):
         def visit_Name(self, n):
             if isinstance(n.ctx, ast.Load) and n.id in env:
-                return ast.copy_location(ast.parse(env[n.id], mode="eval").body, n)
+                try:
+                    return ast.copy_location(ast.parse(env[n.id], mode="eval").body, n)
+                except SyntaxError:
+                    return n
             return n
     return S().visit(ast.parse(ast.unparse(e), mode="eval").body)
 
@@ -61,7 +75,29 @@ def _ev(p, e):
 
 def _wr(p, w):
     p.writes.append(w)
-    p.seq.append(("w", w[0]))
+    p.seq.append(("w", w[0], w[2] if len(w) > 2 else None))
+    invalidate(p, w[0])
+
+
+def invalidate(p, target_src):
+    """A location was written: aliases mentioning it no longer denote what they did."""
+    base = target_src.replace("[]", "")
+    key = base.split("[")[0]
+    if not key:
+        return
+    for k in [k for k, v in p.env.items() if _mentions(v, key)]:
+        del p.env[k]
+
+
+def _mentions(text, key):
+    i = text.find(key)
+    while i >= 0:
+        before = text[i - 1] if i > 0 else " "
+        after = text[i + len(key)] if i + len(key) < len(text) else " "
+        if not (before.isalnum() or before in "_.") and not (after.isalnum() or after == "_"):
+            return True
+        i = text.find(key, i + 1)
+    return False
 
 
 FINE = [False]
@@ -78,63 +114,85 @@ class Walker:
 
     def run(self, fn, env=None):
         self.functions.add("%s.%s" % (self.cls, fn.name))
-        return self.block(list(strip_doc(fn.body)), [Path()], dict(env or {}))
+        p = Path()
+        p.env = dict(env or {})
+        return self.block(list(strip_doc(fn.body)), [p])
 
-    def src(self, e, env):
-        return norm_src(subst(e, env))
+    def src(self, e, p):
+        return norm_src(subst(e, p.env))
 
-    def block(self, stmts, paths, env):
-        env = dict(env)
+    def block(self, stmts, paths):
         for s in stmts:
             live = [p for p in paths if not p.done]
             dead = [p for p in paths if p.done]
             if not live:
                 break
-            paths = dead + self.stmt(s, live, env)
+            paths = dead + self.stmt(s, live)
             if len(paths) > MAX_PATHS:
                 raise AnalysisError("more than %d paths in %s" % (MAX_PATHS, self.cls))
         return paths
 
-    def stmt(self, s, paths, env):
+    def aliasable(self, v):
+        """Expressions a local may stand for in later receivers: attribute/subscript/getter chains."""
+        for n in ast.walk(v):
+            if isinstance(n, (ast.Compare, ast.BoolOp, ast.Lambda, ast.ListComp, ast.IfExp, ast.GeneratorExp)):
+                return False
+            if isinstance(n, ast.Call) and not (isinstance(n.func, ast.Attribute) and (n.func.attr.startswith("get_") or n.func.attr in ("keys",))):
+                if isinstance(n.func, ast.Attribute) and n.func.attr == "pull" and is_learner_expr(n.func.value) and n is v:
+                    continue        # the proposal obtained from a learner: a value token (compared, never re-evaluated)
+                if not (isinstance(n.func, ast.Name) and n.func.id in ("len",)):
+                    return False
+        return isinstance(v, (ast.Attribute, ast.Subscript, ast.Call, ast.Name, ast.BinOp, ast.Constant, ast.UnaryOp))
+
+    def stmt(self, s, paths):
         if isinstance(s, ast.Expr):
             if isinstance(s.value, ast.Constant):
                 return paths
-            return self.expr_effects(s.value, paths, env, stmt=s)
+            return self.expr_effects(s.value, paths, stmt=s)
         if isinstance(s, ast.Assign):
-            paths = self.expr_effects(s.value, paths, env, stmt=s)
-            for t in s.targets:
-                # local alias: remember its source so that receivers are expressed in instance terms
-                if isinstance(t, ast.Name):
-                    env[t.id] = self.src(s.value, env) if self.aliasable(s.value) else env.get(t.id, t.id)
-                    if not self.aliasable(s.value):
-                        env.pop(t.id, None)
-                elif isinstance(t, ast.Subscript) and is_self_attr(t.value) and t.value.attr in SCORE_ATTRS:
-                    for p in paths:
-                        _ev(p, ("mean", self.src(t, env), subst(s.value, env), s))
-                elif isinstance(t, (ast.Attribute, ast.Subscript)):
-                    for p in paths:
-                        _wr(p, (self.src(t, env), norm_src(s)))
-                elif isinstance(t, (ast.Tuple, ast.List)):
-                    for e in t.elts:
-                        if isinstance(e, ast.Name):
-                            env.pop(e.id, None)
+            paths = self.expr_effects(s.value, paths, stmt=s)
+            for p in paths:
+                vsrc = self.src(s.value, p)
+                for t in s.targets:
+                    if isinstance(t, ast.Name):
+                        expanded = subst(s.value, p.env)
+                        selfref = t.id in [n.id for n in ast.walk(expanded) if isinstance(n, ast.Name)]
+                        invalidate(p, t.id)
+                        if self.aliasable(s.value) and not selfref:
+                            p.env[t.id] = vsrc
                         else:
-                            for p in paths:
-                                _wr(p, (self.src(e, env), norm_src(s)))
+                            p.env.pop(t.id, None)
+                    elif isinstance(t, ast.Subscript) and is_self_attr(t.value) and t.value.attr in SCORE_ATTRS:
+                        tsrc = self.src(t, p)
+                        _ev(p, ("mean", tsrc, subst(s.value, p.env), s))
+                        invalidate(p, tsrc)
+                    elif isinstance(t, (ast.Attribute, ast.Subscript)):
+                        _wr(p, (self.src(t, p), norm_src(s), vsrc))
+                    elif isinstance(t, (ast.Tuple, ast.List)):
+                        for e in t.elts:
+                            if isinstance(e, ast.Name):
+                                invalidate(p, e.id)
+                                p.env.pop(e.id, None)
+                            else:
+                                _wr(p, (self.src(e, p), norm_src(s), None))
             return paths
         if isinstance(s, ast.AugAssign):
-            paths = self.expr_effects(s.value, paths, env, stmt=s)
+            paths = self.expr_effects(s.value, paths, stmt=s)
             t = s.target
-            if isinstance(t, ast.Name):
-                env.pop(t.id, None)
-            else:
-                for p in paths:
-                    _wr(p, (self.src(t, env), norm_src(s)))
+            for p in paths:
+                if isinstance(t, ast.Name):
+                    invalidate(p, t.id)
+                    p.env.pop(t.id, None)
+                else:
+                    tsrc = self.src(t, p)
+                    _wr(p, (tsrc, "%s %s= %s" % (tsrc, _OPSYM.get(type(s.op), "?"), self.src(s.value, p)), None))
             return paths
         if isinstance(s, ast.Return):
             if s.value is not None:
-                paths = self.expr_effects(s.value, paths, env, stmt=s)
+                paths = self.expr_effects(s.value, paths, stmt=s)
             for p in paths:
+                if s.value is not None:
+                    _ev(p, ("ret", self.src(s.value, p), subst(s.value, p.env), s))
                 p.done = True
             return paths
         if isinstance(s, ast.Raise):
@@ -143,123 +201,170 @@ class Walker:
                 _ev(p, ("raise", norm_src(s), None, s))
             return paths
         if isinstance(s, ast.If):
+            paths = self.expr_effects(s.test, paths, stmt=s)
             out = []
-            c = self.src(s.test, env)
-            a = [p.clone() for p in paths]
-            b = [p.clone() for p in paths]
-            for p in a:
-                p.conds.append((c, True))
-            for p in b:
-                p.conds.append((c, False))
-            out += self.block(list(s.body), a, env)
-            out += self.block(list(s.orelse), b, env)
+            a, b = [], []
+            for p in paths:
+                c = self.src(s.test, p)
+                pa, pb = p.clone(), p.clone()
+                pa.conds.append((c, True))
+                pb.conds.append((c, False))
+                a.append(pa)
+                b.append(pb)
+            out += self.block(list(s.body), a)
+            out += self.block(list(s.orelse), b)
             return merge(out)
         if isinstance(s, ast.For):
-            body_env = dict(env)
-            for x in ast.walk(s.target):
-                if isinstance(x, ast.Name):
-                    body_env.pop(x.id, None)
-            # `for v in C` / `for i in range(len(C))` with `v = C[i]` first: express v in terms of C
-            it = self.src(s.iter, env)
-            if isinstance(s.target, ast.Name):
-                body_env[s.target.id] = "EACH(%s)" % it
-            body_paths = self.block(list(s.body), [Path()], body_env)
-            evsets = []
-            for bp in body_paths:
-                key = [(e[0], e[1], norm_src(e[2]) if isinstance(e[2], ast.AST) else e[2]) for e in bp.events if e[0] != "raise"]
-                if key not in evsets:
-                    evsets.append(key)
-            has = any(evsets_i for evsets_i in evsets)
-            if has:
-                same = len(evsets) == 1
-                bevents = [e for e in body_paths[0].events]
-                for p in paths:
+            paths = self.expr_effects(s.iter, paths, stmt=s)
+            out = []
+            for p in paths:
+                it = self.src(s.iter, p)
+                bp = Path()
+                bp.env = dict(p.env)
+                for x in ast.walk(s.target):
+                    if isinstance(x, ast.Name):
+                        bp.env.pop(x.id, None)
+                if isinstance(s.target, ast.Name):
+                    bp.env[s.target.id] = "EACH(%s)" % it
+                elif isinstance(s.target, ast.Tuple) and len(s.target.elts) == 2 and all(isinstance(e, ast.Name) for e in s.target.elts) \
+                        and it.startswith("enumerate("):
+                    inner = it[len("enumerate("):-1].split(", start=")[0]
+                    if inner.endswith(", 1") or inner.endswith(", 0"):
+                        inner = inner[:-3]
+                    bp.env[s.target.elts[1].id] = "EACH(%s)" % inner
+                body_paths = self.block(list(s.body), [bp])
+                evsets = []
+                for q in body_paths:
+                    key = [(e[0], e[1], norm_src(e[2]) if isinstance(e[2], ast.AST) else str(e[2])) for e in q.events if e[0] in CREDIT_KINDS]
+                    if key not in evsets:
+                        evsets.append(key)
+                if any(k for k in evsets):
+                    same = len(evsets) == 1
+                    bevents = [e for e in body_paths[0].events if e[0] in CREDIT_KINDS]
                     _ev(p, ("each" if same else "each-varying", it, bevents if same else evsets, s))
-            bw = [w for bp in body_paths for w in bp.writes]
-            for p in paths:
-                for w in bw:
-                    _wr(p, w)
-            return paths
+                for q in body_paths:
+                    for w in q.writes:
+                        _wr(p, w)
+                    for e in q.events:
+                        if e[0] == "call":
+                            _ev(p, ("loop-call", e[1], e[2], e[3]))
+                        elif e[0] == "ret":
+                            _ev(p, ("loop-ret", e[1], e[2], e[3]))
+                for x in ast.walk(s):
+                    if isinstance(x, ast.Name) and isinstance(x.ctx, ast.Store):
+                        invalidate(p, x.id)
+                        p.env.pop(x.id, None)
+                out.append(p)
+            return out
         if isinstance(s, ast.While):
-            body_paths = self.block(list(s.body), [Path()], dict(env))
-            if any(bp.events for bp in body_paths):
-                for p in paths:
-                    _ev(p, ("while-credit", norm_src(s.test), None, s))
-            bw = [w for bp in body_paths for w in bp.writes]
+            out = []
             for p in paths:
-                for w in bw:
-                    _wr(p, w)
+                bp = Path()
+                bp.env = dict(p.env)
+                for x in ast.walk(s):
+                    if isinstance(x, ast.Name) and isinstance(x.ctx, ast.Store):
+                        bp.env.pop(x.id, None)
+                body_paths = self.block(list(s.body), [bp])
+                if any(e[0] in CREDIT_KINDS for q in body_paths for e in q.events):
+                    _ev(p, ("while-credit", norm_src(s.test), None, s))
+                for q in body_paths:
+                    for w in q.writes:
+                        _wr(p, w)
+                    for e in q.events:
+                        if e[0] == "call":
+                            _ev(p, ("loop-call", e[1], e[2], e[3]))
+                        elif e[0] == "ret":
+                            _ev(p, ("loop-ret", e[1], e[2], e[3]))
+                for x in ast.walk(s):
+                    if isinstance(x, ast.Name) and isinstance(x.ctx, ast.Store):
+                        invalidate(p, x.id)
+                        p.env.pop(x.id, None)
+                out.append(p)
+            return out
+        if isinstance(s, (ast.Pass, ast.Break, ast.Continue, ast.FunctionDef)):
             return paths
-        if isinstance(s, (ast.Pass, ast.Break, ast.Continue)):
-            return paths
-        raise AnalysisError("statement %s in receive_reward closure of %s" % (type(s).__name__, self.cls))
+        raise AnalysisError("statement %s in the analysed closure of %s" % (type(s).__name__, self.cls))
 
-    def aliasable(self, v):
-        """Expressions a local may stand for in later receivers: attribute/subscript/getter chains."""
-        for n in ast.walk(v):
-            if isinstance(n, (ast.BinOp, ast.Compare, ast.BoolOp, ast.Lambda, ast.ListComp, ast.IfExp)):
-                return False
-        return isinstance(v, (ast.Attribute, ast.Subscript, ast.Call, ast.Name))
-
-    def expr_effects(self, e, paths, env, stmt):
-        for call in [n for n in ast.walk(e) if isinstance(n, ast.Call)]:
+    def expr_effects(self, e, paths, stmt):
+        calls = [n for n in ast.walk(e) if isinstance(n, ast.Call)]
+        for call in calls:
             f = call.func
             if not isinstance(f, ast.Attribute):
                 continue
             m = f.attr
             recv = f.value
             if m == "update_reward":
-                arg = self.src(call.args[0], env) if call.args else (self.src(call.keywords[0].value, env) if call.keywords else None)
                 for p in paths:
-                    _ev(p, ("node", self.src(recv, env), arg, call))
+                    arg = self.src(call.args[0], p) if call.args else (self.src(call.keywords[0].value, p) if call.keywords else None)
+                    _ev(p, ("node", self.src(recv, p), arg, call))
             elif m == "receive_reward" and not (isinstance(recv, ast.Name) and recv.id == "self"):
-                args = [self.src(a, env) for a in call.args] + ["%s=%s" % (k.arg, self.src(k.value, env)) for k in call.keywords]
                 for p in paths:
-                    _ev(p, ("learner", self.src(recv, env), args, call))
+                    args = [self.src(a, p) for a in call.args] + ["%s=%s" % (k.arg, self.src(k.value, p)) for k in call.keywords]
+                    _ev(p, ("learner", self.src(recv, p), args, call))
             elif m in ("pull", "get_last_point") and is_learner_expr(recv):
-                args = [self.src(a, env) for a in call.args] + ["%s=%s" % (k.arg, self.src(k.value, env)) for k in call.keywords]
                 for p in paths:
-                    _ev(p, ("lpull", self.src(recv, env), args, call))
-            elif m in ("append", "extend", "pop", "remove", "insert", "clear", "sort", "reverse") and not isinstance(recv, ast.Name):
-                for p in paths:
-                    _wr(p, (self.src(recv, env) + "[]", norm_src(call)))
+                    args = [self.src(a, p) for a in call.args] + ["%s=%s" % (k.arg, self.src(k.value, p)) for k in call.keywords]
+                    _ev(p, ("lpull", self.src(recv, p), args, call))
             elif isinstance(recv, ast.Name) and recv.id == "self":
                 o, callee = self.model.lookup(self.cls, m)
                 if callee is not None and self.depth < 6:
                     params = [a.arg for a in callee.args.args][1:]
-                    cenv = {}
-                    for pn, a in zip(params, call.args):
-                        cenv[pn] = self.src(a, env)
-                    for k in call.keywords:
-                        if k.arg in params:
-                            cenv[k.arg] = self.src(k.value, env)
                     self.depth += 1
                     self.functions.add("%s.%s" % (self.cls, callee.name))
                     try:
-                        sub = self.block(list(strip_doc(callee.body)), [Path()], cenv)
+                        out = []
+                        for p in paths:
+                            cenv = {}
+                            for pn, a in zip(params, call.args):
+                                cenv[pn] = self.src(a, p)
+                            for k in call.keywords:
+                                if k.arg in params:
+                                    cenv[k.arg] = self.src(k.value, p)
+                            sp0 = Path()
+                            sp0.env = cenv
+                            sub = self.block(list(strip_doc(callee.body)), [sp0])
+                            for spath in sub:
+                                q = p.clone()
+                                q.conds += spath.conds
+                                wi = 0
+                                for item in spath.seq:
+                                    if item[0] == "ev":
+                                        if item[1][0] == "ret":
+                                            continue        # the callee's return value is not this method's return
+                                        _ev(q, item[1])
+                                    else:
+                                        _wr(q, spath.writes[wi] if wi < len(spath.writes) else (item[1], "", item[2]))
+                                        wi += 1
+                                out.append(q)
+                        paths = merge(out)
                     finally:
                         self.depth -= 1
-                    out = []
-                    for p in paths:
-                        for sp in sub:
-                            q = p.clone()
-                            q.conds += sp.conds
-                            q.events += sp.events
-                            q.writes += sp.writes
-                            q.seq += sp.seq
-                            out.append(q)
-                    paths = merge(out)
+            else:
+                for p in paths:
+                    rs = self.src(recv, p)
+                    args = [self.src(a, p) for a in call.args] + ["%s=%s" % (k.arg, self.src(k.value, p)) for k in call.keywords]
+                    if m in ("append", "extend", "pop", "remove", "insert", "clear", "sort", "reverse") and \
+                            not isinstance(subst(recv, p.env), ast.Name):
+                        _wr(p, (rs + "[]", "%s.%s(%s)" % (rs, m, ", ".join(args)), args[0] if args else None))
+                    elif not (m.startswith("get_") or m in ("keys", "values", "items", "not_opened")) and \
+                            not rs.startswith(("np.", "math.", "numpy.", "copy.")) and rs not in ("np", "math", "numpy", "copy"):
+                        _ev(p, ("call", "%s.%s" % (rs, m), args, call))
         return paths
 
 
+_OPSYM = {ast.Add: "+", ast.Sub: "-", ast.Mult: "*", ast.Div: "/"}
+
+
 def merge(paths):
-    """Merge paths that agree on events and termination (conditions of zero-event paths are kept apart)."""
+    """Merge paths that agree on events, termination and (in fine mode) on the order of events and writes."""
     out = []
     seen = {}
     for p in paths:
+        credits = [e for e in p.events if e[0] in CREDIT_KINDS]
         key = (tuple((e[0], e[1], norm_src(e[2]) if isinstance(e[2], ast.AST) else str(e[2])) for e in p.events), p.done,
-               tuple(p.conds) if not p.events else None,
-               tuple((k, x if k == "w" else x[0]) for k, x in p.seq) if FINE[0] else None)
+               tuple(p.conds) if not credits else None,
+               tuple((x[0], x[1] if x[0] == "w" else x[1][0]) for x in p.seq) if FINE[0] else None,
+               tuple(sorted(p.env.items())) if FINE[0] else None)
         if key in seen:
             q = seen[key]
             for w in p.writes:
